@@ -171,7 +171,9 @@ def run(F, R, tier):
         if ok:
             sb, some_edge, none_edge = fl[0]
             # from the element edge, every path back to the loop test passes clean_files
-            p = B.path([some_edge[1]], [sb], cut_blocks=cl)
+            # ... nor can the iteration leave the loop / the function around it (a `break` that keeps the file re-uploads what the host
+            # already accepted from it)
+            p = B.path([some_edge[1]], [sb] + B.return_blocks(), cut_blocks=cl)
             ok = p is None
             # the file cleaned is the file read
             ro = B.origins(rd[0][3]["args"][0])
